@@ -62,6 +62,12 @@ CLAIMED = {
         "Deterministic policies with scheduler runtime 0; same interpreter and machine for both runs.",
         "DESIGN.md 3 C09",
     ),
+    "C10": (
+        "Hypothesis-generated reachable scheduler inputs (statebuilder) for all eight policies plus every invocation inside generated end-to-end runs; validity predicates, independent interval-sweep capacity oracle with exact worker-assignment search, before/after snapshot comparison",
+        "Each invocation's answer is judged by validity predicates (one decision per task, only offered/previously scheduled and unstarted tasks, completeness, existing pool/worker, own strategy, time >= now/release), an independent capacity sweep over running + scheduled + new placements, and a full snapshot comparison of the live cluster and all tasks. Exploration.",
+        "Solver licence-limit errors are discarded; Z3 reports no strategy so its capacity clause is skipped; pre-states that are not jointly feasible are discarded as unreachable.",
+        "DESIGN.md 3 C10",
+    ),
     "C13": (
         "Hypothesis-generated scheduler inputs (reachable states on single-worker pools) with an independent tie-tolerant fit check per unplaced task",
         "For every generated invocation of EDF/FIFO/LSF: each unplaced task must not fit any pool once higher-or-equal priority placements are accounted; placed tasks are jointly feasible. Exploration.",
